@@ -14,10 +14,10 @@ def run(ctx):
     cfg22 = dict(nt=2, nx=2, sync=False, rollback=False, faults=False, crash=False)
     way = lambda a, b: {'pred': 'reach:w-' + a + b, 'depth': 20, 'seed': {'pred': 'reach:w-' + a + '-', 'depth': 18}, 'variants': 1 if quick else 3}
     # U = validated with none of its proposals committed yet, the second transaction failed with its abort still under way
-    wayu = {'pred': 'reach:w-UF', 'depth': 20, 'seed': {'pred': 'reach:w-U-', 'depth': 18}, 'variants': 1 if quick else 3}
-    q22 = [('bad', 12, bad[:2], wayu), ('bad', 12, bad[:2], way('C', 'F'))]
+    wayu = {'pred': 'reach:w-UF', 'depth': 24, 'seed': {'pred': 'reach:w-U-', 'depth': 22}, 'variants': 3}
+    q22 = [('bad', 12, bad[:2], way('C', 'F'))]
     if not quick:
-        q22.append(('bad', 12, bad[:2], way('V', 'F')))
+        q22 += [('bad', 12, bad[:2], way('V', 'F')), ('bad', 12, bad[:2], wayu)]
     if not quick:
         q22 += [('bad', 36, [b]) for b in bad]
     configs.append(('2x2', cfg22, q22, ['c01', 'c05'] if not quick else []))
